@@ -22,6 +22,14 @@ def main():
                     h.__exit__(None, None, None)
                 else:
                     h.uninstall()
+        elif op[0] == "import_missing":
+            try:
+                importlib.import_module(op[1])
+                print(json.dumps({"error": "import %s succeeded although its directory is not on sys.path yet" % op[1]})); return
+            except ImportError:
+                pass
+        elif op[0] == "addpath":
+            sys.path.append(os.path.join(forest, "_late"))
         elif op[0] == "import":
             try:
                 importlib.import_module(op[1])
@@ -29,7 +37,7 @@ def main():
                 print(json.dumps({"error": "import %s failed: %s: %s" % (op[1], type(e).__name__, e)})); return
     loaded = {}
     for name, mod in sorted(sys.modules.items()):
-        if name.split(".")[0] in ("foo", "foobar", "foo_bar", "zed", "fo", "imp2"):
+        if name.split(".")[0] in ("foo", "foobar", "foo_bar", "zed", "fo", "imp2", "addon", "addpkg"):
             f = getattr(mod, "f", None)
             if f is None:
                 continue
